@@ -44,9 +44,13 @@ def gen_spec(rng, clean=False, max_nodes=5):
         r = rng.random()
         if clean or r > pbad:
             return ('#' + rng.choice(pool)) if pool else None
-        if r < pbad / 2 or not pool:
+        if r < pbad / 3 or not pool:
             return '#nosuch%d' % rng.randint(0, 2)
-        return rng.choice(pool)          # '#' missing
+        if r < 2 * pbad / 3:
+            return rng.choice(pool)          # '#' missing
+        # not of the form '#'+id although the fragment is a local id: another document, '##id', ...
+        return rng.choice(['parts.dae#%s', './x.dae#%s', 'http://example.org/a.dae#%s', '##%s', '#%s#x', '# %s', '#%s ',
+                           '', '#']) .replace('%s', rng.choice(pool))
     libs = {}
     libs['images'] = [{'id': i} for i in ids['images']]
     libs['effects'] = []
@@ -103,8 +107,10 @@ def gen_spec(rng, clean=False, max_nodes=5):
                 r = rng.random()
                 if r < 0.08:
                     url = '#nosuchnode'
-                elif r < 0.14 and targets:
+                elif r < 0.11 and targets:
                     url = rng.choice(targets)          # '#' missing
+                elif r < 0.14 and targets:
+                    url = rng.choice(['parts.dae#%s', '##%s', '#%s#x', '# %s', '']).replace('%s', rng.choice(targets))
                 elif r < 0.2 and allow_self:
                     url = '#' + me
                 elif targets:
@@ -171,7 +177,7 @@ def gen_spec(rng, clean=False, max_nodes=5):
     elif r < 0.1:
         default = '#nosuchscene'
     else:
-        default = rng.choice(sc_ids)
+        default = rng.choice(['%s', 'other.dae#%s', '##%s', '#%s#x', '']).replace('%s', rng.choice(sc_ids))
     order = [k for k in ['images', 'effects', 'materials', 'geometries', 'controllers', 'lights', 'cameras', 'nodes', 'scenes']
              if libs[k]]
     rng.shuffle(order)
@@ -248,10 +254,12 @@ def build(spec):
                 el = frag(D.image(x['id'], x['id'] + '.png'))
             elif k == 'effects':
                 el = frag(D.effect_textured(x['id'], x['image']) if x['image'] is not None else D.effect_plain(x['id']))
-                if x['image'] is not None and x.get('bump'):
-                    tech = el.find(q('extra')).find(q('technique'))
-                    b = ET.SubElement(tech, q('bump'))
-                    ET.SubElement(b, q('texture'), {'texture': x['id'] + '-samp', 'texcoord': 'UV0'})
+                if x['image'] is not None and not x.get('bump'):
+                    # (the textured effect of c08docs carries a bump map under <extra>; drop it here)
+                    ex = el.find(q('extra'))
+                    for tech in list(ex):
+                        if tech.find(q('bump')) is not None:
+                            ex.remove(tech)
             elif k == 'materials':
                 el = frag(D.material(x['id'], 'X'))
                 el.find(q('instance_effect')).set('url', x['effect'])
